@@ -159,7 +159,7 @@ theorem attr_in_names {c f : Nat} {T : Ty} {cd : ClassDef} (hc : P.classes[c]? =
   unfold lookupAttr at hl
   rw [mroOf_eq hc] at hl
   obtain ⟨k, hk, hown⟩ := findAttr_some_mem _ _ hl
-  unfold allAttrNames
+  unfold allAttrNames attrNames
   rw [List.mem_flatten]
   unfold ownAttr at hown
   cases hkc : P.classes[k]? with
@@ -417,8 +417,9 @@ theorem expr_step (t : Typed P tm) (ih : EvalOK P tm n) : ExprOK P tm (n + 1) :=
         refine sat_bind (sat_instOf hvT) ?_
         intro st2 b _ hb
         obtain ⟨rfl, hb⟩ := hb
-        apply sat_pure
-        obtain ⟨h1, h2⟩ := instMaps_sound w hms hv hvT
+        intro hi
+        refine ⟨hi, Ext.refl _, ?_⟩
+        obtain ⟨h1, h2⟩ := instMaps_sound w hms hi.1 hv hvT
         refine ⟨hasTy_bool b, ?_, ?_⟩
         · intro htb; rw [truthy_bool] at htb; exact h1 (hb.mp htb)
         · intro htb; rw [truthy_bool] at htb
